@@ -287,6 +287,25 @@ def rule_decode_side(repo, res):
     ifs = [n for n in fn.body if isinstance(n, ast.If)]
     ok = any("microsecond" in norm(i.test) and any(isinstance(b, ast.Raise) for b in i.body) for i in ifs) and \
         isinstance(fn.body[-1], ast.Return) and fn.body.index(ifs[0]) < len(fn.body) - 1 if ifs else False
+    # the test must apply to both kinds of value that have a microsecond field: time and datetime
+    if ok:
+        guard = [i for i in ifs if "microsecond" in norm(i.test)][0]
+        kinds_ok = True
+        for c in ast.walk(guard.test):
+            if isinstance(c, ast.Call) and isinstance(c.func, ast.Name) and c.func.id == "isinstance" and len(c.args) == 2:
+                ty = c.args[1]
+                names = {norm(t).split(".")[-1] for t in (ty.elts if isinstance(ty, ast.Tuple) else [ty])}
+                # `datetime` in decoder.py is the class (from datetime import datetime); a time is not an instance of it
+                kinds_ok = {"time", "datetime"} <= names
+            if isinstance(c, ast.Call) and isinstance(c.func, ast.Name) and c.func.id == "hasattr" and len(c.args) == 2 \
+                    and isinstance(c.args[1], ast.Constant) and c.args[1].value not in ("microsecond", "second", "minute", "hour"):
+                kinds_ok = False
+        res.oblige("PDS", "PDSLabelDecoder.decode_datetime: the precision test covers times and date-times alike", ok=kinds_ok)
+        if not kinds_ok:
+            res.add(Finding("PDS", "PDSLabelDecoder.decode_datetime", "precision test type guard",
+                            "the sub-millisecond precision test of PDSLabelDecoder.decode_datetime is guarded by a type test that "
+                            "does not cover both datetime.time and datetime.datetime: PDS3 accepts times (or date-times) with "
+                            "microsecond precision", where=f"pvl/decoder.py:{guard.lineno}"))
     res.oblige("PDS", "PDSLabelDecoder.decode_datetime raises for sub-millisecond precision before returning", ok=bool(ok))
     if not ok:
         res.add(Finding("PDS", "PDSLabelDecoder.decode_datetime", "precision test", "the sub-millisecond precision test no "
